@@ -158,6 +158,9 @@ def handle : R String := do
     let (σ, opn) := wordRunOpen code fuel σ0 false
     let stopped := (Spec.wordStep code σ).isNone
     pure s!"ok {wBool stopped} {wBool opn} {wSpecState σ addrs}"
+  | "ifdef" => do
+    let s ← str
+    pure (wStr (Ifdef.evaluate s))
   | "pseudo" => do
     let kind ← tok
     let args ← list int
